@@ -62,32 +62,57 @@ Definition comp_ok (allowed : cp -> bool) (s : str) : bool :=
 Definition comp_ok_v (allowed : cp -> bool) (v : val) : bool :=
   match v with WStr s => comp_ok allowed s | WNone => true | _ => false end.
 
+(** the C01 statement on an observation, with the string form to be checked given
+    separately (the known-finding classifiers check the string form minus the host) *)
+Definition c01_core (check_bytes : bool) (s : option str) (o : val) : bool :=
+  match s with Some s => isascii s && pct_wf s | None => false end
+  && comp_ok_v rfc_userinfo_part (nthv i_raw_user o)
+  && comp_ok_v rfc_userinfo_part (nthv i_raw_password o)
+  && comp_ok_v rfc_path_char (nthv i_raw_path o)
+  && comp_ok_v rfc_query_char (nthv i_query o)
+  && comp_ok_v rfc_fragment_char (nthv i_fragment o)
+  && (negb check_bytes || negb (is_err (nthv i_bytes o))).
+
 (** args: observation of a URL produced in auto-encoding mode *)
 Definition c01_pred (args : list val) : bool :=
   match args with
   | [o] =>
       match o with
-      | WList _ =>
-          match nthv i_str o with
-          | WStr s => isascii s && pct_wf s
-          | _ => false
-          end
-          && comp_ok_v rfc_userinfo_part (nthv i_raw_user o)
-          && comp_ok_v rfc_userinfo_part (nthv i_raw_password o)
-          && comp_ok_v rfc_path_char (nthv i_raw_path o)
-          && comp_ok_v rfc_query_char (nthv i_query o)
-          && comp_ok_v rfc_fragment_char (nthv i_fragment o)
-          && negb (is_err (nthv i_bytes o))
+      | WList _ => c01_core true (get_str (nthv i_str o)) o
       | _ => true
       end
   | _ => false
+  end.
+
+(** delete the first occurrence of [h] (non-empty) from [s] *)
+Fixpoint remove_sub (h s : str) : str :=
+  match s with
+  | [] => []
+  | c :: r => if startswith h s then skipn (length h) s else c :: remove_sub h r
+  end.
+
+(** "everything but the host is fine": the C01 statement holds once the stored
+    host is deleted from the string form *)
+Definition c01_except_host (o : val) : bool :=
+  match nthv i_str o, nthv i_raw_host o with
+  | WStr s, WStr (c :: h) => c01_core false (Some (remove_sub (c :: h) s)) o
+  | _, _ => false
   end.
 
 (** known finding F20: IP literal with a non-ASCII zone id (kept verbatim) *)
 Definition kf_f20 (args : list val) : bool :=
   match args with
   | [o] => match nthv i_raw_host o with
-           | WStr h => mem 58 h && negb (isascii h)
+           | WStr h => mem 58 h && negb (isascii h) && c01_except_host o
+           | _ => false end
+  | _ => false
+  end.
+(** known finding F26: a '%' inside the stored host is not an upper-case escape (an escape
+    in a registered name is lower-cased with the name, as C16 demands; a zone id is verbatim) *)
+Definition kf_f26 (args : list val) : bool :=
+  match args with
+  | [o] => match nthv i_raw_host o with
+           | WStr h => mem 37 h && isascii h && c01_except_host o
            | _ => false end
   | _ => false
   end.
